@@ -31,6 +31,13 @@ INTERFACES = {
         ("tag", {"typ": "str", "doc": "free-form label", "default": "x_y"}),
     )),
 }
+# interfaces whose truth also documents a return value (the class emitter folds it into a `return_type` attribute; sync hands ONE parsed
+# description to every emitter in turn, so a class target emitted first must not leak that attribute into the function target)
+INTERFACES["withret"] = OrderedDict((
+    ("dataset_name", {"typ": "str", "doc": "name of dataset", "default": "mnist"}),
+    ("epochs", {"typ": "int", "doc": "number of passes", "default": 3}),
+))
+RETURNS = {"withret": {"typ": "str", "doc": "the status", "default": "ok"}}
 SUMMARY = "Acquire from the official tensorflow_datasets model zoo."
 
 
@@ -38,24 +45,32 @@ def _lit(v):
     return repr(v) if not isinstance(v, str) else '"%s"' % v
 
 
-def class_src(name, params, summary=SUMMARY):
+def class_src(name, params, summary=SUMMARY, returns=None):
     lines = ["class %s(object):" % name, '    """', "    " + summary, ""]
     for n, p in params.items():
         lines.append("    :cvar %s: %s" % (n, p["doc"]))
+    if returns:
+        lines.append("    :cvar return_type: %s" % returns["doc"])
     lines[-1] += '"""'
     for n, p in params.items():
         lines.append("    %s: %s = %s" % (n, p["typ"], _lit(p["default"])))
+    if returns:
+        lines.append("    return_type: %s = %s" % (returns["typ"], _lit(returns["default"])))
     return "\n".join(lines) + "\n"
 
 
-def function_src(name, params, summary=SUMMARY, method_of=None, body="pass"):
+def function_src(name, params, summary=SUMMARY, method_of=None, body="pass", returns=None):
     ind = "    " if method_of else ""
     first = "self, " if method_of else ""
     sig = ", ".join("%s: %s = %s" % (n, p["typ"], _lit(p["default"])) for n, p in params.items())
-    lines = ["%sdef %s(%s*, %s):" % (ind, name, first, sig), ind + '    """', ind + "    " + summary, ""]
+    lines = ["%sdef %s(%s*, %s)%s:" % (ind, name, first, sig, (" -> %s" % returns["typ"]) if returns else ""), ind + '    """', ind + "    " + summary, ""]
     for n, p in params.items():
         lines.append(ind + "    :param %s: %s" % (n, p["doc"]))
         lines.append("")
+    if returns:
+        lines.append(ind + "    :returns: %s" % returns["doc"])
+        lines.append("")
+        body = "return %s" % _lit(returns["default"])
     lines.append(ind + '    """')
     lines.append(ind + "    " + body)
     src = "\n".join(lines) + "\n"
@@ -64,10 +79,11 @@ def function_src(name, params, summary=SUMMARY, method_of=None, body="pass"):
     return src
 
 
-def argparse_src(name, params, summary=SUMMARY):
+def argparse_src(name, params, summary=SUMMARY, returns=None):
     lines = ["def %s(argument_parser):" % name, '    """', "    Set CLI arguments", "",
              "    :param argument_parser: argument parser", "    :type argument_parser: ```ArgumentParser```", "",
-             "    :returns: argument_parser", "    :rtype: ```ArgumentParser```", '    """',
+             "    :returns: argument_parser" + ((", %s" % returns["doc"]) if returns else ""),
+             "    :rtype: ```%s```" % (("Tuple[ArgumentParser, %s]" % returns["typ"]) if returns else "ArgumentParser"), '    """',
              "    argument_parser.description = %s" % _lit(summary)]
     for n, p in params.items():
         t = p["typ"]
@@ -76,12 +92,16 @@ def argparse_src(name, params, summary=SUMMARY):
             lines.append("    argument_parser.add_argument(\"--%s\", choices=(%s), help=%s, required=True, default=%s)" % (n, choices, _lit(p["doc"]), _lit(p["default"])))
         else:
             lines.append("    argument_parser.add_argument(\"--%s\", type=%s, help=%s, required=True, default=%s)" % (n, t, _lit(p["doc"]), _lit(p["default"])))
-    lines.append("    return argument_parser")
+    lines.append("    return argument_parser" + ((", %s" % _lit(returns["default"])) if returns else ""))
     return "\n".join(lines) + "\n"
 
 
-OTHER_BEFORE = "import os\nfrom typing import Literal\n\nCONST = 5\n\n\ndef helper(dataset_name, K=2):\n    \"\"\"helper shares parameter names\"\"\"\n    return dataset_name, K\n\n\n"
+OTHER_BEFORE = "import os\nfrom typing import Literal\n\nCONST = 5\n\n\ndef helper(dataset_name, K=2):\n    \"\"\"helper shares parameter names\"\"\"\n    return dataset_name, K\n\n\n" \
+    "class Earlier(object):\n    \"\"\"ConfigClass\"\"\"\n\n\nclass Earlier2(object):\n    \"\"\"train\"\"\"\n\n\nclass Earlier3(object):\n    \"\"\"set_cli_args\"\"\"\n\n\n"
 OTHER_AFTER = "\n\nclass Other(object):\n    \"\"\"another class\"\"\"\n\n    epochs: int = 99\n\n    def train(self, epochs=1):\n        return epochs\n\n\nTAIL = helper(1)\n"
+
+# surround == "after": nothing before the definition, and a module-level def (and a string constant naming the target) after it
+OTHER_AFTER_DEF = OTHER_AFTER + "\n\ndef main(epochs=2):\n    \"\"\"entry point\"\"\"\n    return [\"ConfigClass\", \"train\", \"set_cli_args\", epochs]\n"
 
 # a file whose last line is a comment inside an indented block (with newline=False: no trailing newline)
 OTHER_COMMENT_TAIL = "import os\n\n\nclass Options(object):\n    \"\"\"holder\"\"\"\n\n    verbose = False\n    # TODO: more options\n"
@@ -89,12 +109,12 @@ OTHER_COMMENT_TAIL = "import os\n\n\nclass Options(object):\n    \"\"\"holder\"\
 NAMES = {"class": "ConfigClass", "function": "train", "argparse_function": "set_cli_args"}
 
 
-def kind_src(kind, params, method=False, summary=SUMMARY):
+def kind_src(kind, params, method=False, summary=SUMMARY, returns=None):
     if kind == "class":
-        return class_src(NAMES["class"], params, summary)
+        return class_src(NAMES["class"], params, summary, returns=returns)
     if kind == "function":
-        return function_src(NAMES["function"], params, summary, method_of="Trainer" if method else None)
-    return argparse_src(NAMES["argparse_function"], params, summary)
+        return function_src(NAMES["function"], params, summary, method_of="Trainer" if method else None, returns=returns)
+    return argparse_src(NAMES["argparse_function"], params, summary, returns=returns)
 
 
 def stale_params(params):
@@ -119,6 +139,7 @@ class Project:
         self.files = {k: os.path.join(self.dir, {"class": "classes.py", "function": "methods.py", "argparse_function": "argparse.py"}[k])
                       for k in NAMES}
         self.params = INTERFACES[iface]
+        self.returns = RETURNS.get(iface)
 
     def search_name(self, kind):
         if kind == "function" and self.method:
@@ -128,9 +149,8 @@ class Project:
     def write_initial(self):
         for kind, path in self.files.items():
             if kind == self.truth_kind:
-                src = kind_src(kind, self.params, method=(kind == "function" and self.method))
-                if self.surround:
-                    src = OTHER_BEFORE + src + OTHER_AFTER
+                src = kind_src(kind, self.params, method=(kind == "function" and self.method), returns=self.returns)
+                src = self._surrounded(src)
                 self._write(path, src)
                 continue
             ps = self.prestates.get(kind)
@@ -139,20 +159,23 @@ class Project:
             if ps == "empty":
                 self._write(path, "")
             elif ps == "absent":
-                src = OTHER_BEFORE + OTHER_AFTER.lstrip("\n")
+                src = OTHER_BEFORE + OTHER_AFTER.lstrip("\n") if self.surround != "after" else OTHER_AFTER_DEF.lstrip("\n")
                 if not self.newline and not self.surround:
                     src = OTHER_COMMENT_TAIL  # the other no-trailing-newline shape: an indented comment as last line
                 self._write(path, src if self.newline else src.rstrip("\n"))
             elif ps == "stale":
-                src = kind_src(kind, stale_params(self.params), method=(kind == "function" and self.method))
-                if self.surround:
-                    src = OTHER_BEFORE + src + OTHER_AFTER
+                src = self._surrounded(kind_src(kind, stale_params(self.params), method=(kind == "function" and self.method), returns=self.returns))
                 self._write(path, src)
             elif ps == "agreeing":
-                src = kind_src(kind, self.params, method=(kind == "function" and self.method))
-                if self.surround:
-                    src = OTHER_BEFORE + src + OTHER_AFTER
+                src = self._surrounded(kind_src(kind, self.params, method=(kind == "function" and self.method), returns=self.returns))
                 self._write(path, src)
+
+    def _surrounded(self, src):
+        if self.surround == "after":
+            return src + OTHER_AFTER_DEF
+        if self.surround:
+            return OTHER_BEFORE + src + OTHER_AFTER
+        return src
 
     @staticmethod
     def _write(path, src):
@@ -263,7 +286,7 @@ def combos(tier):
     kinds = list(NAMES)
     for tk in kinds:
         others = [k for k in kinds if k != tk]
-        for iface in (("basic", "literal", "negative") if tier == "thorough" else ("basic", "negative")):
+        for iface in (("basic", "literal", "negative", "withret") if tier == "thorough" else ("basic", "negative", "withret")):
             for method in (False, True):
                 pairs = list(itertools.product(PRESTATES, repeat=2))
                 if tier != "thorough" and not (iface == "basic" and not method):
